@@ -747,7 +747,7 @@ func cmdCheck(args []string) {
 		}
 		ev := map[string]interface{}{
 			"property_id": id, "tier": *tier, "seed": seed, "level": level, "coverage": cov,
-			"assumptions": pc.Assumes, "wall_s": round2(wall), "violations": violations,
+			"assumptions": append(append([]string{}, pc.Assumes...), trusted...), "wall_s": round2(wall), "violations": violations,
 		}
 		os.MkdirAll(filepath.Join(*vdir, "evidence"), 0o755)
 		b, _ := json.MarshalIndent(ev, "", " ")
